@@ -24,8 +24,10 @@ import (
 	"math/rand"
 	"os"
 	"path/filepath"
+	"runtime"
 	"sort"
 	"strings"
+	"sync"
 	"time"
 
 	"github.com/notaryproject/notation-core-go/signature"
@@ -185,7 +187,29 @@ type acase struct {
 	blobVerifyTimestamp            []string
 	mode                           string
 	prelude                        []string
-	plugin                         string // plugin variant of the verification under test
+	plugin                         string   // plugin variant of the verification under test
+	names                          []string // statement names (the same in the OCI and the blob document)
+	naming                         string
+}
+
+// nameFamilies: statement names that are different strings (so: valid together in one document)
+// but equal under letter-case folding, Unicode simple folding (Kelvin sign, long s), or up to
+// surrounding white space. A lookup that matches names more loosely than `==` confuses them.
+var nameFamilies = map[string][]string{
+	"plain":  {"s0", "s1", "s2"},
+	"case":   {"Payments", "payments", "PAYMENTS"},
+	"kelvin": {"Kilo", "\u212Ailo", "kilo"},
+	"longs":  {"s0", "\u017F0", "S0"},
+	"space":  {"prod", "prod ", " prod"},
+	"mixed":  {"Prod", "prod ", "PROD"},
+}
+var namingModes = []string{"plain", "plain", "case", "case", "kelvin", "longs", "space", "mixed"}
+
+func (a *acase) name(k int) string {
+	if k < 0 || k >= len(a.names) {
+		return "no-such-statement"
+	}
+	return a.names[k]
 }
 
 // call is one verification of a history.
@@ -285,6 +309,9 @@ func genCase(r *rand.Rand) acase {
 
 	// statements and scopes
 	nst := 1 + r.Intn(3)
+	a.naming = pick(r, namingModes)
+	a.names = append([]string{}, nameFamilies[a.naming]...)
+	r.Shuffle(len(a.names), func(i, j int) { a.names[i], a.names[j] = a.names[j], a.names[i] })
 	scopes := append([]string{}, scopePool...)
 	r.Shuffle(len(scopes), func(i, j int) { scopes[i], scopes[j] = scopes[j], scopes[i] })
 	wildAt := -1
@@ -340,9 +367,15 @@ func genCase(r *rand.Rand) acase {
 		// the verification under test is a VerifyBlob against the blob statement of some name
 		a.testKind = "blob"
 		bapp = r.Intn(nst)
-		a.repo = fmt.Sprintf("s%d", bapp)
+		if nst > 1 && r.Intn(2) == 0 {
+			bapp = 1 + r.Intn(nst-1) // not the first: a looser match would find an earlier one
+		}
+		a.repo = a.name(bapp)
 		if r.Intn(10) == 0 {
-			bapp, a.repo = -1, "s9" // no such statement
+			bapp, a.repo = -1, a.name(-1) // no such statement
+			if nst < len(a.names) {
+				a.repo = a.names[len(a.names)-1] // ... but one whose name is loosely equal to an existing one's
+			}
 		}
 		a.app, app = bapp, -1
 	}
@@ -365,7 +398,7 @@ func genCase(r *rand.Rand) acase {
 	}
 	// the blob document: statements of the same names with other lists
 	for k := range a.stmts {
-		name := fmt.Sprintf("s%d", k)
+		name := a.name(k)
 		st := Stmt{Scopes: []string{name}, Level: pick(r, []string{"strict", "permissive", "audit"}), AuthLog: r.Intn(4) == 0}
 		switch {
 		case k == bapp:
@@ -624,7 +657,7 @@ func history(r *rand.Rand, a acase) []call {
 	test := call{kind: a.testKind, scheme: a.scheme, chain: a.chain, repo: a.repo, world: "base", plugin: a.plugin, phase: "test"}
 	plugins := []string{"none", "identity-success", "identity-failure", "identity+revocation-success", "identity+revocation-failure", "revocation-only"}
 	otherScheme := otherOf(r, []string{"x509", "signingAuthority"}, a.scheme)
-	name := func(k int) string { return fmt.Sprintf("s%d", k) }
+	name := a.name
 	var out []call
 	for _, k := range a.prelude {
 		c := test
@@ -638,7 +671,7 @@ func history(r *rand.Rand, a acase) []call {
 			if a.testKind == "oci" {
 				c.repo = otherOf(r, append(append([]string{}, scopePool...), "reg.example/none"), a.repo)
 			} else {
-				c.repo = otherOf(r, []string{"s0", "s1", "s2", "s9"}, a.repo)
+				c.repo = otherOf(r, append(append([]string{}, a.names...), a.name(-1)), a.repo)
 			}
 		case "otherDoc", "otherDocOtherScheme":
 			if k == "otherDocOtherScheme" {
@@ -900,7 +933,7 @@ func newScenario(c *common.Ctx, p *pki, a acase, seq int, extra map[string][]pla
 		bdoc := &trustpolicy.BlobDocument{Version: "1.0"}
 		for k, st := range a.stmts {
 			doc.TrustPolicies = append(doc.TrustPolicies, trustpolicy.OCITrustPolicy{
-				Name: fmt.Sprintf("s%d", k), RegistryScopes: st.Scopes,
+				Name: a.name(k), RegistryScopes: st.Scopes,
 				SignatureVerification: trustpolicy.SignatureVerification{VerificationLevel: st.Level, Override: override(st), VerifyTimestamp: trustpolicy.TimestampOption(a.verifyTimestamp[k])},
 				TrustStores:           lists(st.TrustStores),
 				TrustedIdentities:     []string{"*"},
@@ -1055,6 +1088,172 @@ func (sc *scenario) verify(cl call) (Input, Obs) {
 	return in, o
 }
 
+// ---- concurrency stage ----------------------------------------------------------------------
+
+const stressGoroutines = 16
+
+type ctxLogKey struct{}
+
+// ctxLogStore records each GetCertificates call in the log carried by the call's context, so
+// that concurrent verifications on one store object keep separate call logs.
+type ctxLogStore struct{ inner truststore.X509TrustStore }
+
+func (l ctxLogStore) GetCertificates(ctx context.Context, storeType truststore.Type, namedStore string) ([]*x509.Certificate, error) {
+	if log, ok := ctx.Value(ctxLogKey{}).(*[]Call); ok {
+		*log = append(*log, Call{string(storeType), namedStore})
+	}
+	return l.inner.GetCertificates(ctx, storeType, namedStore)
+}
+
+type stressCall struct {
+	load     bool // a direct GetCertificates instead of a verification
+	scheme   string
+	chain    string
+	repo     string
+	ty, name string // load: the store
+	in       Input
+	obs      Obs
+}
+
+// runStress: goroutines verify and load against different stores of one directory tree at the
+// same time. Nothing here is shared on purpose except what the implementation shares itself
+// (package-level state, the store object, the verifier); each call has its own statement or
+// store and must see exactly that store.
+func runStress(c *common.Ctx, p *pki) {
+	rounds, loadRounds := 250, 2500
+	if c.Thorough() {
+		rounds, loadRounds = 1200, 6000
+	}
+	r := c.Rand
+	root := filepath.Join(c.WorkDir, "stress")
+	// every store holds something else; the same name exists under the three types
+	places := []place{
+		{ty: "ca", name: "alpha", kind: "certs", certs: []int{rootA}, fault: 1},
+		{ty: "ca", name: "beta", kind: "certs", certs: []int{rootU}, fault: 1},
+		{ty: "ca", name: "gamma", kind: "certs", certs: []int{rootB, selfV}, fault: 1},
+		{ty: "signingAuthority", name: "alpha", kind: "certs", certs: []int{rootU, selfC}, fault: 1},
+		{ty: "signingAuthority", name: "beta", kind: "certs", certs: []int{rootA, interA}, fault: 1},
+		{ty: "signingAuthority", name: "gamma", kind: "certs", certs: []int{selfV}, fault: 1},
+		{ty: "tsa", name: "alpha", kind: "certs", certs: []int{rootA, rootB}, fault: 1},
+		{ty: "tsa", name: "beta", kind: "certs", certs: []int{rootB}, fault: 1},
+		{ty: "tsa", name: "gamma", kind: "certs", certs: []int{rootU}, fault: 1},
+	}
+	world := dirWorld(p, places, filepath.Join(root, "truststore"), filepath.Join(root, "truststore"), chainIDs["A"])
+	defer os.RemoveAll(root)
+	// statements t0..t7, one scope each, one or two stores each
+	var stmts []Stmt
+	doc := &trustpolicy.OCIDocument{Version: "1.0"}
+	for k := 0; k < 8; k++ {
+		st := Stmt{Scopes: []string{fmt.Sprintf("reg.example/t%d", k)}, Level: "permissive"}
+		n := 1 + r.Intn(2)
+		for j := 0; j < n; j++ {
+			st.TrustStores = append(st.TrustStores, pick(r, []string{"ca", "signingAuthority", "ca", "signingAuthority", "tsa"})+":"+pick(r, storeNames))
+		}
+		stmts = append(stmts, st)
+		doc.TrustPolicies = append(doc.TrustPolicies, trustpolicy.OCITrustPolicy{
+			Name: fmt.Sprintf("t%d", k), RegistryScopes: st.Scopes,
+			SignatureVerification: trustpolicy.SignatureVerification{VerificationLevel: st.Level,
+				Override: map[trustpolicy.ValidationType]trustpolicy.ValidationAction{trustpolicy.TypeRevocation: trustpolicy.ActionSkip}, VerifyTimestamp: trustpolicy.OptionAfterCertExpiry},
+			TrustStores: append([]string{}, st.TrustStores...), TrustedIdentities: []string{"*"},
+		})
+	}
+	newVerifier := func() interface {
+		notation.Verifier
+	} {
+		v, err := verifier.NewVerifierWithOptions(ctxLogStore{truststore.NewX509TrustStore(dir.NewSysFS(root))}, verifier.VerifierOptions{OCITrustPolicy: doc})
+		must(err)
+		return v
+	}
+	shared := newVerifier()
+	realStore := truststore.NewX509TrustStore(dir.NewSysFS(root))
+	for _, ch := range []string{"A", "B", "C"} {
+		for _, sc := range []string{"x509", "signingAuthority"} {
+			p.env(ch, sc, "jws", false) // the envelope cache is filled before the goroutines start
+		}
+	}
+	note := []string{fmt.Sprintf("concurrent: one of %d goroutines verifying / loading against one directory tree at the same time", stressGoroutines)}
+	// the work of every goroutine is drawn beforehand (deterministic inputs)
+	work := make([][]stressCall, stressGoroutines)
+	for g := range work {
+		if g%2 == 1 { // a loader
+			for k := 0; k < loadRounds; k++ {
+				pl := places[r.Intn(6)] // ca and signingAuthority stores: their load can be phrased as a verification
+				scheme := "x509"
+				if pl.ty == "signingAuthority" {
+					scheme = "signingAuthority"
+				}
+				st := Stmt{Scopes: []string{"reg.example/load"}, TrustStores: []string{pl.ty + ":" + pl.name}, Level: "permissive"}
+				work[g] = append(work[g], stressCall{load: true, ty: pl.ty, name: pl.name, in: Input{Scheme: scheme, Chain: pl.certs,
+					Statements: []Stmt{st}, Repo: "reg.example/load", World: world, IdentityOk: true, Plugin: "none", Backend: "dir", Format: "jws",
+					Kind: "load", History: note}})
+			}
+			continue
+		}
+		for k := 0; k < rounds; k++ {
+			sc := stressCall{scheme: pick(r, []string{"x509", "signingAuthority"}), chain: pick(r, chainNames), repo: stmts[r.Intn(len(stmts))].Scopes[0]}
+			sc.in = Input{Scheme: sc.scheme, Chain: chainIDs[sc.chain], Statements: stmts, Repo: sc.repo, World: world, IdentityOk: true,
+				Plugin: "none", Backend: "dir", Format: "jws", Kind: "oci", History: note}
+			work[g] = append(work[g], sc)
+		}
+	}
+	var wg sync.WaitGroup
+	start := make(chan struct{})
+	for g := range work {
+		wg.Add(1)
+		go func(g int) {
+			defer wg.Done()
+			v := shared
+			if g%4 == 2 {
+				v = newVerifier() // its own verifier and store object over the same tree
+			}
+			<-start
+			for k := range work[g] {
+				w := &work[g][k]
+				var log []Call
+				ctx := context.WithValue(context.Background(), ctxLogKey{}, &log)
+				if w.load {
+					// Kind "load": a direct GetCertificates on the real store, recorded as the verification
+					// of a chain made of exactly what the store must return: pass = exactly its own certificates
+					cs, err := realStore.GetCertificates(ctx, truststore.Type(w.ty), w.name)
+					ok := err == nil && len(cs) == len(w.in.Chain)
+					for j := 0; ok && j < len(cs); j++ {
+						ok = cs[j].Equal(p.certs[w.in.Chain[j]])
+					}
+					w.obs = Obs{Result: "fail", Calls: []Call{{w.ty, w.name}}, Accepted: ok}
+					if ok {
+						w.obs.Result = "pass"
+					}
+					continue
+				}
+				outcome, verr := v.Verify(ctx, target, p.envs[w.chain+"/"+w.scheme+"/jws/false"], notation.VerifierVerifyOptions{
+					ArtifactReference: w.repo + "@" + target.Digest.String(), SignatureMediaType: common.MediaJWS})
+				w.obs = Obs{Result: "fail", Calls: append([]Call{}, log...), Accepted: verr == nil}
+				if outcome == nil {
+					panic(fmt.Sprintf("c03 stress: no outcome: %v", verr))
+				}
+				for _, res := range outcome.VerificationResults {
+					if res.Type == trustpolicy.TypeAuthenticity && res.Error == nil {
+						w.obs.Result = "pass"
+					}
+				}
+			}
+		}(g)
+	}
+	close(start)
+	wg.Wait()
+	for g := range work {
+		for _, w := range work[g] {
+			c.Emit(w.in, w.obs)
+			c.Count("stress: result=" + w.obs.Result)
+			if w.load {
+				c.Count("stress: direct loads")
+			} else {
+				c.Count("stress: verifications")
+			}
+		}
+	}
+}
+
 // Run generates the cases of C03.
 func Run(c *common.Ctx) error {
 	p := newPKI()
@@ -1081,6 +1280,7 @@ func Run(c *common.Ctx) error {
 		c.Count("scenario: mode=" + a.mode)
 		c.Count(fmt.Sprintf("scenario: statements=%d", len(a.stmts)))
 		c.Count("scenario: backend=" + a.backend)
+		c.Count("scenario: statement-names=" + a.naming)
 		if a.malformed {
 			c.Count("scenario: malformed-values")
 			if sc.validated {
@@ -1117,6 +1317,8 @@ func Run(c *common.Ctx) error {
 		}
 		sc.close()
 	}
+	runStress(c, p)
+	c.Note("concurrency stage (SAMPLED, not exhaustive): %d goroutines on %d CPUs verify (shared and private verifiers) and load (direct GetCertificates) against DIFFERENT (type, name) stores of ONE directory tree at the same time, fixed number of rounds; every call is a case held to the model's stateless prediction for its own statement and store (call log per call through the context)", stressGoroutines, runtime.NumCPU())
 	c.Note("scenarios = one verifier instance + one trust store object + an OCI and a blob policy document with statements of the same names; every scenario is a history of 2-4 verifications on that instance: 0-2 prelude verifications (other scheme under the same statement / other chain / other statement / the statement of the same name in the other document kind, optionally with the other scheme / the same verification under a 'poison' world in which every store loads and holds the chain, or under a world in which no store loads, swapped back afterwards: MemStore contents replaced, directory tree renamed), then the verification under test (Verify, or VerifyBlob in one scenario of five), then the same verification again; EVERY call is a case and is held to the model's stateless prediction (result, call log, acceptance). Worlds: 3 store types x names {alpha,beta,gamma} (same name under several types), each store absent / loadable / empty / failing, holding certificates of the signer's chain (root, intermediate, leaf, self-signed leaf) or unrelated ones; 1-3 statements with disjoint scopes and optional wildcard statement, trustStores lists of 1-9 values with duplicates, all three types, never-placed name delta; modes random / adversarial (chain certificates only where they must not count) / good / good with one listed store broken; one scenario in eight writes values a validated policy cannot carry (missing separator, empty name, two separators, unknown type) into the documents after construction; both schemes, JWS and COSE, levels strict/permissive/audit, revocation skipped, trustedIdentities *; back ends: instrumented MemStore and the real x509TrustStore over a directory tree (load result of a directory store computed by the harness from what it wrote)")
 	return nil
 }
